@@ -206,7 +206,11 @@ fn common(args: &[String]) -> Result<Common, String> {
 }
 
 fn plan_for(c: &Common, index: u64) -> (u64, Plan) {
-    let prof = check::profile_for(&c.prop, &c.tier);
+    let mut prof = check::profile_for(&c.prop, &c.tier);
+    if FORCE_T.load(std::sync::atomic::Ordering::SeqCst) {
+        // runs with the collector installed: user code logs (bursts, floods, helpers that outlive callbacks, ...)
+        prof.tracing = true;
+    }
     let run_seed = splitmix(c.seed ^ prop_salt(&c.prop), index);
     let mut plan = genplan::gen_plan(run_seed, &prof);
     if check::world_of(&c.prop) == 'C' {
